@@ -185,6 +185,14 @@ def main(argv):
         ctx.count("composed-model-calls", ncalls)
         for b in bad[:5]:
             ctx.disagreement("composed Lean model PooledClient∘Client differs from the real PooledClient", b, theorem="C01_pooled_own_bytes_only")
+    # composed model HashClient ∘ Client (Pymc/Model/HashCall.lean): random histories of single-key calls with per-call scripts on the real
+    # HashClient, compared call by call (result, server, inner client object, bookkeeping state, socket / unread bytes of every registered client)
+    if ctx.lean.build_ok:
+        import hashcall_diff
+        ncalls, bad = hashcall_diff.differential(4000 if ctx.thorough else 600, rng, ctx.driver.batch)
+        ctx.count("composed-hash-model-calls", ncalls)
+        for b in bad[:5]:
+            ctx.disagreement("composed Lean model HashClient∘Client differs from the real HashClient", b, theorem="C01_hash_own_bytes_only")
     ctx.assumptions = ["the server emits exactly one reply unit per reply-expecting command (framing grammar of DESIGN.md C01); content inside a unit is adversarial",
                        "late delivery after a timeout is modelled as bytes that stay in the pipe of that connection", "BaseException faults are C10"]
     ctx.finish()
